@@ -29,7 +29,7 @@ func verifSpecial(s string, chars string) bool {
 
 // verifC07: nameLen / textLen symbolic bytes in the identifiers / in the default and
 // comment texts (0 = concrete); fmtSet 0 = Atlas default format, 1 = the
-// golang-migrate / flyway formats (plain files), 2 = goose / dbmate (own readers).
+// golang-migrate / flyway / liquibase formats (plain files), 2 = goose / dbmate (own readers).
 func verifC07(nameLen, textLen, fmtSet int, mode string) {
 	verifC07x(nameLen, nameLen, textLen, fmtSet, mode, false)
 }
@@ -85,11 +85,11 @@ func verifC07x(tableLen, colLen, textLen, fmtSet int, mode string, quoteOnly boo
 		return
 	}
 	plan.Version = "1"
-	fmts := []migrate.Formatter{migrate.DefaultFormatter, sqltool.GolangMigrateFormatter, sqltool.GooseFormatter, sqltool.DBMateFormatter, sqltool.FlywayFormatter}
+	fmts := []migrate.Formatter{migrate.DefaultFormatter, sqltool.GolangMigrateFormatter, sqltool.GooseFormatter, sqltool.DBMateFormatter, sqltool.FlywayFormatter, sqltool.LiquibaseFormatter}
 	fi := 0
 	switch fmtSet {
 	case 1:
-		fi = []int{1, 4}[verifChoice("formatter", 2)]
+		fi = []int{1, 4, 5}[verifChoice("formatter", 3)]
 	case 2:
 		fi = []int{2, 3}[verifChoice("formatter", 2)]
 	}
